@@ -195,6 +195,11 @@ func genNodeCase(seed uint64, tier, focus, variant string) *simk.Case {
 	if focus == "C20" {
 		return genDtlsrOps(c, r, &ex, np, nb, tier)
 	}
+	if focus == "C13" && algo == "dtlsr" && np >= 1 && r.Bool(0.5) {
+		// DTLSR's broadcast bundles are the replicated ones: link-state histories (reordered, stale, equal
+		// timestamps, through different previous nodes) as for C20
+		return genDtlsrOps(c, r, &ex, np, nb, tier)
+	}
 	if focus == "C19" {
 		nops = r.Range(10, 80)
 		if tier == "thorough" && r.Bool(0.3) {
